@@ -64,5 +64,19 @@ CHECKS["C02"] = {
     "technique": "explicit-state model checking with exhaustive enumeration of failing operation instances (fault transitions) in every reachable state",
 }
 
+CHECKS["C06"] = {
+    "engine": "E2-history-explorer",
+    "category": "fault_enumeration",
+    "text": "BFS over operation histories of a world of 2-3 xtl::any objects, each state rebuilt by replaying its history on a fresh world and deduplicated by the observed (type, value, moved-from) of every object; "
+            "run to FIXPOINT. Every operation instance (construct/assign from lvalue and rvalue of 8 payload types on both sides of the in-place/heap threshold, copy/move construct and assign, member and std::swap "
+            "including self-swap, reset/clear, recreate, mutation through any_cast<T&>) is executed unfaulted in every reachable state - which measures the number K of copy/move invocations that can throw - and then "
+            "once for each k=1..K with the k-th one throwing. Oracle: value model incl. the strong guarantee, address-keyed lifetime registry (constructed once, never used dead, destroyed once, nothing alive after "
+            "teardown), ASan/LSan, and in every new state every any_cast form x every type. Every point at which an element can throw is enumerated, which is what the fault_sequences quantifier asks for.",
+    "design_ref": "DESIGN.md section 3, C06",
+    "note": "Trusted: the harness payload types and registry; the hand-written value model (cross-checked with std::any on fault-free prefixes). Bounds: 3 objects, values {1,2} (quick: 2 objects x 2 values and 3 objects x 1 value), "
+            "8 payload types. Moved-from objects are only required to stay queryable/assignable/destructible; self move-assignment is not in the alphabet.",
+    "technique": "stateless model checking over operation histories with exhaustive throw-point (fault) enumeration and a lifetime-registry oracle",
+}
+
 NOT_YET = "check not built yet in this round; design in DESIGN.md section 3"
 NOT_APPLICABLE = {}
